@@ -400,6 +400,44 @@ func run(c *fw.Ctx) {
 		}
 	}
 	longFamilies(c, emit)
+	longSplits(c, emit)
+}
+
+// longSplits: 20-record contents whose columns are split into pages at
+// positions that leave > 8 values (and counts that are not multiples of 8)
+// in non-final pages, independently per column, under each codec.
+func longSplits(c *fw.Ctx, emit func(t *sut.Target, ct content, devs []Dev, tagf string, a ...interface{})) {
+	menus := [][]int{{9, 11}, {11, 9}, {13, 7}, {8, 12}, {17, 3}, {10, 10}, {9, 9, 2}, {1, 19}, {16, 4}, {7, 13}}
+	for _, tn := range []string{"mini", "obool", "person"} {
+		t := sut.Get(tn)
+		for _, variant := range []string{"mixed", "dense"} {
+			var recs []refpq.Val
+			if variant == "mixed" {
+				recs = families.MixedRecords(t, 20)
+			} else {
+				recs = families.DenseRecords(t, 20)
+			}
+			ct := content{tn, recs, []int{20}}
+			ncols := len(t.Schema().Leaves())
+			for mi, m := range menus {
+				for col := 0; col < ncols; col++ {
+					for _, cd := range []int{refpq.CodecSnappy, refpq.CodecNone} {
+						devs := []Dev{{Kind: "splits", RG: 0, Col: col, Splits: m}}
+						if cd != refpq.CodecSnappy {
+							devs = append(devs, Dev{Kind: "codec", RG: 0, Col: col, Arg: cd})
+						}
+						emit(t, ct, devs, "split|%s|%s|%d|%d|%d", tn, variant, mi, col, cd)
+					}
+				}
+				// all columns split the same way
+				var devs []Dev
+				for col := 0; col < ncols; col++ {
+					devs = append(devs, Dev{Kind: "splits", RG: 0, Col: col, Splits: m})
+				}
+				emit(t, ct, devs, "splitall|%s|%s|%d", tn, variant, mi)
+			}
+		}
+	}
 }
 
 // longFamilies: long level streams with explicit run structures (bit-packed
